@@ -56,8 +56,9 @@ def load(mm, text):
 
 class Prop(Check):
     ID = "C19"
-    LEAN_MODULE = "TextxVerif.Peg.Arp"
-    THEOREMS = []  # filled below when the module exists
+    LEAN_MODULE = "TextxVerif.Props.C19"
+    THEOREMS = ["Peg.C19_posdet", "Peg.C19_partial", "Peg.C19_partial_agree", "Peg.C19_partial_accept",
+                "Peg.C19_full_false", "Peg.parse_le", "Peg.plain_sim", "Peg.memo_sim"]
     DRIVER = "Drivers/Peg.lean"
     QUICK_CASES = 250
     CASE_TIMEOUT = 20
